@@ -894,6 +894,23 @@ func check(prop, tier string, onlyPart string) int {
 					flaky = true
 				}
 			}
+			// Other runs of this batch that showed the same class are tried as well before giving up: when the
+			// code under test depends on map iteration order, one run's log may need a rare order to show it again.
+			for ci := 1; ci < len(rs) && ci < 6 && !reproduced; ci++ {
+				c := rs[ci]
+				if c.crashed && !c.shutdownDeath {
+					c.Choices = captureChoices(j, partSeed, int64(c.Seed-partSeed*1000003))
+				}
+				crf := rf
+				crf.Seed, crf.Choices, crf.Detail = c.Seed, c.Choices, c.Detail
+				for a := 0; a < confirmAttempts && !reproduced; a++ {
+					rr, perr = runReplay(j, crf, false)
+					reproduced = perr == "" && sameClass(rr, k)
+				}
+				if reproduced {
+					r, rf = c, crf
+				}
+			}
 			if reproduced && flaky && attempts == 1 {
 				attempts = 8
 				outLines = append(outLines, fmt.Sprintf("  note: %q needed more than one replay of its choice log to show again: the code under test is nondeterministic under a fixed schedule", k))
